@@ -492,18 +492,19 @@ def _make_cfg(b: Built):
     }
 
 
-def cfg_line(b: Built) -> str:
-    return json.dumps(b.cfg, separators=(",", ":"))
+def cfg_line(b: Built, full: bool = False) -> str:
+    """`full`: also evaluate the (expensive) validator of the theory, `Bridge.staticOk`, on this design"""
+    return json.dumps({**b.cfg, "full": int(full)}, separators=(",", ":"))
 
 
-def summary_line(b: Built) -> str:
+def summary_line(b: Built, full: bool = False) -> str:
     """first observation line, in the format the Lean driver answers the cfg line with"""
     if b.reject is not None:
         return f"reject kind={b.reject}"
     edges = ",".join(f"{a}-{c}" for a, c in b.edges) if b.edges else "-"
     groups = "|".join(",".join(str(x) for x in g) for g in b.groups) if b.groups else "-"
     return (f"ok tr={_lst(b.post_trans)} me={_lst(b.post_meths)} groups={groups} merge=1 cond=1 cgr={edges} "
-            f"vo=1 hyp=1 shape12=1 nbr=1 shape13=1")
+            f"vo=1 hyp={'1' if full else '-'} shape12=1 nbr=1 shape13=1")
 
 
 def _lst(v) -> str:
